@@ -84,6 +84,32 @@ class FakeSubprocess(object):
     def Popen(self, argv, **kw):
         return FakePopen(self, argv, **kw)
 
+    # the other usual ways of running a child, in case the code under test is refactored to them
+    def run(self, argv, **kw):
+        check = kw.pop('check', False)
+        if kw.pop('capture_output', False):
+            kw['stdout'] = kw['stderr'] = self.PIPE
+        kw.pop('timeout', None)
+        text = kw.pop('text', None) or kw.pop('universal_newlines', None)
+        enc = kw.pop('encoding', None)
+        kw.setdefault('stdout', self.PIPE)
+        kw.setdefault('stderr', self.PIPE)
+        p = FakePopen(self, argv, **kw)
+        out, err = p.communicate()
+        if text or enc:
+            out = out.decode(enc or 'utf-8')
+            err = err.decode(enc or 'utf-8')
+        if check and p.returncode != 0:
+            raise real_subprocess.CalledProcessError(p.returncode, argv, out, err)
+        return real_subprocess.CompletedProcess(argv, p.returncode, out, err)
+
+    def check_output(self, argv, **kw):
+        kw.pop('stderr', None)
+        return self.run(argv, check=True, **kw).stdout
+
+    def call(self, argv, **kw):
+        return self.run(argv, **kw).returncode
+
 
 class C35(core.Check):
     pid = 'C35'
